@@ -292,6 +292,89 @@ func c13DirWorker(c *mc.Ctx, depth int) {
 }
 
 // ---------------------------------------------------------------------------
+// (c) Earlier generations in the SAME process (library use of the generator):
+// one process walks through every ordered pair of configurations with the real
+// codegen.Generate (packages.Load included); the second generation of each
+// pair must produce exactly what a fresh process produces.
+
+func c13InProcess(c *mc.Ctx) {
+	tmpRoot, err := os.MkdirTemp(pipe.ScratchRoot(), "loxmc.c13c.")
+	if err != nil {
+		c.Stats.HarnessError("%v", err)
+		return
+	}
+	defer os.RemoveAll(tmpRoot)
+	cfgs := c13Configs()
+	// package names differ between configurations
+	pkgName := []string{"p", "q", "p"}
+	mk := func(i int, tag string) string {
+		base := filepath.Join(tmpRoot, tag)
+		dir := filepath.Join(base, "pkg")
+		os.MkdirAll(dir, 0o777)
+		os.WriteFile(filepath.Join(base, "go.mod"), []byte("module example.com/m\n\ngo 1.23\n"), 0o666)
+		os.WriteFile(filepath.Join(dir, "g.lox"), []byte(cfgs[i].lox), 0o666)
+		os.WriteFile(filepath.Join(dir, "user.go"), []byte(strings.Replace(cfgs[i].user, "package p\n", "package "+pkgName[i]+"\n", 1)), 0o666)
+		return dir
+	}
+	read := func(dir string) dirState {
+		d := dirState{}
+		for _, f := range c13Gen {
+			b, _ := os.ReadFile(filepath.Join(dir, f))
+			d[f] = string(b)
+		}
+		return d
+	}
+	// reference: each configuration generated by a fresh process (this binary re-executed)
+	self, _ := os.Executable()
+	fresh := make([]dirState, len(cfgs))
+	for i := range cfgs {
+		dir := mk(i, fmt.Sprintf("fresh%d", i))
+		out, err := exec.Command(self, "genreal", dir).CombinedOutput()
+		if err != nil {
+			c.Stats.HarnessError("fresh in-process generation of %s failed: %v %s", cfgs[i].name, err, firstLine(string(out)))
+			return
+		}
+		fresh[i] = read(dir)
+	}
+	n := 0
+	for x := range cfgs {
+		for y := range cfgs {
+			n++
+			d1 := mk(x, fmt.Sprintf("h%d_1", n))
+			ok1, diag1, p1 := pipe.RunReal(d1)
+			d2 := mk(y, fmt.Sprintf("h%d_2", n))
+			ok2, diag2, p2 := pipe.RunReal(d2)
+			c.Stats.Evaluations += 2
+			c.Stats.Nontrivial++
+			c.Stats.Transitions++
+			_ = ok1
+			_ = diag1
+			_ = p1
+			bad := ""
+			switch {
+			case p2 != "":
+				bad = "the generator panicked: " + firstLine(p2)
+			case !ok2:
+				bad = "the generation failed: " + firstLine(diag2)
+			default:
+				got := read(d2)
+				for _, f := range c13Gen {
+					if got[f] != fresh[y][f] {
+						bad = f + " differs from what a fresh process generates: " + pipe.FirstDiff(got[f], fresh[y][f])
+						break
+					}
+				}
+			}
+			if bad != "" {
+				c.Stats.Violate(mc.Violation{Property: "C13", Check: "C13", Kind: "in-process-history", Size: n, Case: mustJSON(map[string]any{"inprocess": []string{cfgs[x].name, cfgs[y].name}}),
+					Detail: fmt.Sprintf("in one process, generating %s (package %s) and then %s (package %s): %s", cfgs[x].name, pkgName[x], cfgs[y].name, pkgName[y], bad)})
+			}
+		}
+	}
+	c.Stats.Add("in_process_ordered_pairs", int64(n))
+}
+
+// ---------------------------------------------------------------------------
 // Parent: runs (b) in process and (a) in the instrumented binary.
 
 func c13Worker(c *mc.Ctx) {
@@ -300,6 +383,7 @@ func c13Worker(c *mc.Ctx) {
 		depth = 2
 	}
 	c13DirWorker(c, depth)
+	c13InProcess(c)
 	// (a) map-order seam: a separate binary built with every map range rewritten
 	bin := root.Path("bin", "loxmc-maporder")
 	if _, err := os.Stat(bin); err != nil {
@@ -397,6 +481,20 @@ func c13Replay(raw json.RawMessage) *mc.Violation {
 			return nil
 		}
 		return &mc.Violation{Property: "C13", Check: "C13", Kind: "map-order", Detail: strings.TrimSpace(string(out))}
+	}
+	var ip struct {
+		InProcess []string `json:"inprocess"`
+	}
+	json.Unmarshal(raw, &ip)
+	if ip.InProcess != nil {
+		ctx := &mc.Ctx{NShards: 1}
+		c13InProcess(ctx)
+		for _, v := range ctx.Stats.Violations {
+			if string(v.Case) == string(raw) {
+				return &v
+			}
+		}
+		return nil
 	}
 	// directory histories: re-run the whole (small) BFS and look for the same history
 	ctx := &mc.Ctx{NShards: 1}
